@@ -17,7 +17,7 @@ TECH = {
  "C11": "dominance of the block-list test, try/except containment rules, closed list of uncontained calls in the main loop, guarded-reply rules for the hello path, writer/reader agreement of the hello padding length by value (through temporaries)",
  "C12": "name resolution, declared/read attribute agreement between client, context and connection classes, control-dependence sets of the keep-alive and timeout statements compared as condition literals",
  "C13": "writer/reader table folding and struct-format agreement; interval analysis of serialize_int against struct ranges; dispatch on type(value) by value through temporaries; edge cut for the TypeError fall-through; reaching-definition identity of parameter and packed value in the scalar writers",
- "C14": "decoder call graph; loop-bound and consumption rules, forward-only stream rule (no function of the graph repositions a stream), allocation-sink scan with positive control, closed-universe dispatch rules",
+ "C14": "decoder call graph; loop-bound and consumption rules, forward-only stream rule (no function of the graph repositions a stream), allocation-sink scan with positive control, closed-universe dispatch rules (table dispatch only, no computed callable)",
  "C15": "abstract interpretation of the toJson / fromJson container dispatch over a term language (rules/jsonshape.py), decision-path sets of the basic converters, sibling agreement of the enum name maps",
  "C16": "partial evaluation of Router.patternToRegex on constant patterns (engine/minieval.py, the program is not run) and differencing of the built texts into per-kind fragments; regular-expression AST analysis (FIRST sets, capture counts, character classes) of the fragments; Router.getRoute decided by partial evaluation on a model route table with recording stand-in pattern objects (order of tries, first match, token/group pairing), structural no-pre-filter rule on its loop; fresh-container rule for the route table",
  "C17": "containment decided by partial evaluation of path_join_safe with os.path replaced by POSIX string functions on a root x name family (engine/minieval.py); fallback edge cut over the CFG of path_join_safe: with the out-edges of the classified containment tests removed no return is reachable; def-use identity of the guarded and the returned value; the component test (dot segments, backslashes) decided by partial evaluation of the function up to os.path.join on a family of file names (engine/minieval.py)",
